@@ -64,6 +64,10 @@ def run_check(pid, tier, seed):
                 results.append(Result(f"{short}/function-exists", "exists", "undecided", short, 0, detail={"error": str(e)}))
             except Unsupported as e:
                 results.append(Result(f"{short}/supported", "supported", "undecided", short, 0, detail={"error": str(e)}))
+            except Exception as e:
+                # the symbolic executor met a construct it mishandles: this function's obligations are undecided, the check does not crash
+                import traceback as _tb
+                results.append(Result(f"{short}/supported", "supported", "undecided", short, 0, detail={"error": f"engine exception {type(e).__name__}: {e}", "trace": _tb.format_exc()[-600:]}))
         smt_obls += eng.obls
         notes += [list(n) for n in eng.notes]
     verdicts = solve.discharge_all(smt_obls, tier)
